@@ -38,7 +38,7 @@ CONSTANTS D,           \* nesting depth (number of chained scatters), 1..3
           SizeTermSt,  \* statuses the size port may terminate with   (subset of {"completed","skipped"})
           ElemTermSt,  \* statuses the element stream may terminate with ("completed","skipped","failed")
           Drop,        \* TRUE: the size port may terminate without delivering size tokens of non-empty lists
-          OrderSet,    \* prescribed delivery orders of the leaves (sequences of paths); <<>> = any order
+          OrderFor(_), \* shape -> set of prescribed delivery orders of the leaves (sequences of paths); <<>> = any order
           Eager,       \* TRUE: arrivals at the gathers start after all scatters ran (generation configs)
           Record       \* TRUE: keep the history of gather events in `hist` (generation configs)
 
@@ -101,7 +101,7 @@ Flat(n) == [i \in 1..n |-> <<>>]                    \* a list of n scalars
 ---------------------------------------------------------------------------
 Init ==
   /\ shape \in ShapeSet
-  /\ dord \in OrderSet
+  /\ dord \in OrderFor(shape)
   /\ outElem = [k \in 0..D |-> IF k = 0 THEN << <<>> >> ELSE <<>>]
   /\ outSize = [k \in 1..D |-> <<>>]
   /\ sc = [k \in 1..D |-> 0]
